@@ -162,6 +162,7 @@ def check_invariants(ctx, facts):
         ctx.ok("C18.2", F, "(2) current_segment starts at 1", ap.relfile, aggs[0][0].line)
     ctx.floor("C18.2", "stores to current_segment", len(cs_stores), 1)
     # (3) no removal
+    n3b = 0
     for name, b in facts.bodies.items():
         if b.j["derived"]:
             continue
@@ -170,7 +171,18 @@ def check_invariants(ctx, facts):
             flds = [o.what[1] for o in pr if o.kind == "field"]
             if any(f in ("sealed_segments", "segment_leaders", "topics") for f in flds):
                 ctx.violate("C18.2", F, "history-removed:" + callee_name(s.node).split("::")[-1], b.relfile, s.line, "%s removes entries of %s" % (name.split("::")[-1], flds))
-    ctx.ok("C18.2", F, "(3) no remove/clear/retain on sealed_segments, segment_leaders or topics", ap.relfile, ap.line)
+        # (3b) no in-place change of a recorded count / leader: the history maps are reached mutably only by insert
+        # (whose key is judged by (4)/(5)); get_mut / entry / iter_mut / values_mut / IndexMut hand out a way to
+        # overwrite the value recorded for an already sealed segment
+        for s in b.calls(re.compile(r"HashMap::(get_mut|entry|iter_mut|values_mut|get_many_mut|get_disjoint_mut|raw_entry_mut|insert_unique_unchecked|try_insert)$|ops::IndexMut.*::index_mut$|BTreeMap::(get_mut|entry|iter_mut|values_mut|range_mut|first_entry|last_entry)$")):
+            pr = provenance(b, s.node["args"][0])
+            flds = [o.what[1] for o in pr if o.kind == "field"]
+            if any(f in ("sealed_segments", "segment_leaders") for f in flds):
+                n3b += 1
+                ctx.violate("C18.2", F, "sealed-history-mutable-access:" + callee_name(s.node).split("::")[-1], b.relfile, s.line,
+                            "%s reaches %s through %s: the count / leader recorded for a sealed segment can be overwritten in place, so a sealed segment's entry count or "
+                            "leader can change after sealing" % (name.split("::")[-1], [f for f in flds if f in ("sealed_segments", "segment_leaders")], callee_name(s.node).split("::")[-1]))
+    ctx.ok("C18.2", F, "(3) no remove/clear/retain on sealed_segments, segment_leaders or topics; no get_mut/entry/iter_mut on the two history maps", ap.relfile, ap.line)
     # (4)-(6) rollover arm
     inserts = []
     for s in ap.calls(re.compile(r"HashMap::insert$")):
